@@ -674,30 +674,245 @@ theorem C20_canon_words (l : List Str) (hne : l ≠ []) (h : ∀ w ∈ l, C18.To
       subst hc
       exact not_indent_of_not_ws _ (hx.2 _ (by rw [hxa]; simp))
 
-/-- **not canonical (1)**: `serialize_env` ends every piece with a newline — the value of a parsed
-    buildinfo with one variable (finding F-C20-2) -/
-theorem C20_env_not_canonical :
-    envCodec.de "A=1".toList = .ok (.map [("A".toList, "1".toList)])
-    ∧ ¬ CanonLines (Text.splitOn '\n' (envCodec.ser (.map [("A".toList, "1".toList)]))) := by
-  constructor
-  · decide +kernel
-  · have : envCodec.ser (.map [("A".toList, "1".toList)]) = "A=1\n".toList := by
-      simp [envCodec, envSer, envPiece]
-    rw [this]; decide +kernel
+/-! ### repository types and the buildinfo environment (sorted joins since e958a7d / fe15555) -/
 
-/-- **not canonical (2)**: a `Files` list is read by white-space splitting and printed one pattern
+theorem lookup_mem_values (k : Str) (t : List (Str × Str)) (v : Str) (h : Enum.lookup k t = some v) :
+    v ∈ t.map (·.2) := by
+  induction t with
+  | nil => simp [Enum.lookup] at h
+  | cons p r ih =>
+    simp only [Enum.lookup] at h
+    split at h
+    · simp at h; simp [h]
+    · simp [ih h]
+
+def fourTypes : List (List Str) := [[], [c!"deb"], [c!"deb-src"], [c!"deb", c!"deb-src"]]
+
+theorem typesDe_image (ws acc : List Str) (l : List Str) (hacc : acc ∈ fourTypes)
+    (h : typesDe ws acc = .ok l) : l ∈ fourTypes := by
+  induction ws generalizing acc with
+  | nil => simp [typesDe] at h; rw [← h]; exact hacc
+  | cons w ws ih =>
+    simp only [typesDe] at h
+    cases hp : Enum.parseOf Gen.Enums.repositoryType w with
+    | none => rw [hp] at h; simp at h
+    | some k =>
+      rw [hp] at h
+      simp only at h
+      apply ih _ _ h
+      have hk : k ∈ Gen.Enums.repositoryType.parseTab.map (·.2) := by
+        unfold Enum.parseOf at hp
+        cases hl : Enum.lookup (Enum.normalise Gen.Enums.repositoryType.norm w) Gen.Enums.repositoryType.parseTab with
+        | none => rw [hl] at hp; have : Gen.Enums.repositoryType.catchAll = .reject := by decide
+                  simp [this] at hp
+        | some v => rw [hl] at hp; simp at hp; rw [← hp]; exact lookup_mem_values _ _ _ hl
+      have step : ∀ k ∈ Gen.Enums.repositoryType.parseTab.map (·.2), ∀ a ∈ fourTypes,
+          insertSorted ((Enum.printOf Gen.Enums.repositoryType k).getD []) a ∈ fourTypes := by decide +kernel
+      exact step k hk acc hacc
+
+/-- **Types**: whatever text was read, the value is one of the four sets, it survives
+    `serialize_types` / `deserialize_types`, and its printed form is a canonical value (the empty
+    set prints as the empty text) -/
+theorem C20_types_stable (t : Str) (v : Val) (h : typesCodec.de t = .ok v) :
+    typesCodec.canon v ∧ typesCodec.de (typesCodec.ser v) = .ok v
+    ∧ (v ≠ .list [] → CanonLines (Text.splitOn '\n' (typesCodec.ser v))) := by
+  have hcanon : typesCodec.canon v := by
+    simp only [typesCodec] at h
+    cases hd : typesDe (Text.splitWhitespace t) [] with
+    | error e => rw [hd] at h; simp at h
+    | ok l =>
+      rw [hd] at h
+      simp only [Except.ok.injEq] at h
+      subst h
+      have := typesDe_image _ [] l (by simp [fourTypes]) hd
+      simp only [fourTypes, List.mem_cons, List.mem_nil_iff, or_false] at this
+      rcases this with rfl | rfl | rfl | rfl
+      · left; rfl
+      · right; left; rfl
+      · right; right; left; rfl
+      · right; right; right; rfl
+  refine ⟨hcanon, C16.types_ok v hcanon, ?_⟩
+  intro hne
+  rcases hcanon with rfl | rfl | rfl | rfl
+  · exact absurd rfl hne
+  · have : sortStrings [c!"deb"] = [c!"deb"] := C16.sortStrings_sorted _ (by simp)
+    simp only [typesCodec, this]; decide +kernel
+  · have : sortStrings [c!"deb-src"] = [c!"deb-src"] := C16.sortStrings_sorted _ (by simp)
+    simp only [typesCodec, this]; decide +kernel
+  · have : sortStrings [c!"deb", c!"deb-src"] = [c!"deb", c!"deb-src"] :=
+      C16.sortStrings_sorted _ (by simp; decide)
+    simp only [typesCodec, this]; decide +kernel
+
+theorem rawLines_chars (t : Str) : ∀ lf ∈ Text.rawLines t, ∀ c ∈ lf.1, c ∈ t ∧ c ≠ '\n' := by
+  induction t with
+  | nil => intro lf h; simp [Text.rawLines] at h
+  | cons x xs ih =>
+    intro lf h c hc
+    simp only [Text.rawLines] at h
+    split at h
+    · simp only [List.mem_cons] at h
+      rcases h with rfl | h
+      · simp at hc
+      · have := ih lf h c hc; exact ⟨by simp [this.1], this.2⟩
+    · rename_i hx
+      cases hr : Text.rawLines xs with
+      | nil =>
+        rw [hr] at h; simp at h; subst h
+        simp at hc; subst hc; exact ⟨by simp, hx⟩
+      | cons q qs =>
+        rw [hr] at h
+        simp only [List.mem_cons] at h
+        rcases h with rfl | h
+        · simp only [List.mem_cons] at hc
+          rcases hc with rfl | hc
+          · exact ⟨by simp, hx⟩
+          · have := ih q (by rw [hr]; simp) c hc; exact ⟨by simp [this.1], this.2⟩
+        · have := ih lf (by rw [hr]; simp [h]) c hc; exact ⟨by simp [this.1], this.2⟩
+
+theorem lines_chars (t : Str) : ∀ l ∈ Text.lines t, ∀ c ∈ l, c ∈ t ∧ c ≠ '\n' := by
+  intro l hl c hc
+  simp only [Text.lines, List.mem_map] at hl
+  obtain ⟨lf, hlf, rfl⟩ := hl
+  have hsub : c ∈ lf.1 := by
+    split at hc
+    · unfold Text.stripCR at hc
+      split at hc
+      · exact (List.dropLast_subset _) hc
+      · exact hc
+    · exact hc
+  exact rawLines_chars t lf hlf c hsub
+
+theorem splitOnFirst_eq (l k v : Str) (h : Codec.splitOnFirst ['='] l = some (k, v)) :
+    '=' ∉ k ∧ l = k ++ '=' :: v := by
+  induction l generalizing k with
+  | nil => simp [Codec.splitOnFirst] at h
+  | cons c cs ih =>
+    simp only [Codec.splitOnFirst] at h
+    split at h
+    · rename_i hp
+      simp at h
+      have hc : c = '=' := by
+        have : '=' = c := by simpa [List.isPrefixOf] using hp
+        exact this.symm
+      subst hc
+      obtain ⟨rfl, rfl⟩ := h
+      simp
+    · rename_i hp
+      have hc : c ≠ '=' := by
+        intro e; apply hp; subst e; simp [List.isPrefixOf]
+      cases hr : Codec.splitOnFirst ['='] cs with
+      | none => rw [hr] at h; simp at h
+      | some r =>
+        rw [hr] at h
+        simp only [Option.some.injEq, Prod.mk.injEq] at h
+        obtain ⟨rfl, rfl⟩ := h
+        obtain ⟨h1, h2⟩ := ih r.1 (by rw [hr])
+        refine ⟨?_, by rw [h2]; simp⟩
+        intro hm
+        simp only [List.mem_cons] at hm
+        rcases hm with hm | hm
+        · exact hc hm.symm
+        · exact h1 hm
+
+theorem envDe_image (ls : List Str) (acc m : List (Str × Str)) (hs : MapSorted acc)
+    (h : envDe ls acc = .ok m) :
+    MapSorted m ∧ ∀ p ∈ m, p ∈ acc ∨ ∃ l ∈ ls, Codec.splitOnFirst ['='] l = some p := by
+  induction ls generalizing acc with
+  | nil => simp [envDe] at h; subst h; exact ⟨hs, fun p hp => Or.inl hp⟩
+  | cons l ls ih =>
+    simp only [envDe] at h
+    cases hsp : Codec.splitOnFirst ['='] l with
+    | none => rw [hsp] at h; simp at h
+    | some kv =>
+      rw [hsp] at h
+      simp only at h
+      obtain ⟨h1, h2⟩ := ih _ (C16.mapInsert_sorted kv.1 kv.2 acc hs) h
+      refine ⟨h1, ?_⟩
+      intro p hp
+      rcases h2 p hp with hp' | ⟨l', hl', hs'⟩
+      · rcases C16.mem_mapInsert _ _ _ p hp' with rfl | hp''
+        · right; exact ⟨l, by simp, hsp⟩
+        · left; exact hp''
+      · right; exact ⟨l', by simp [hl'], hs'⟩
+
+/-- **Environment**: every map read from a text without CR survives `serialize_env` /
+    `deserialize_env`, for any number of variables -/
+theorem C20_env_stable (t : Str) (m : List (Str × Str)) (hcr : '\r' ∉ t)
+    (h : envCodec.de t = .ok (.map m)) :
+    envCodec.canon (.map m) ∧ envCodec.de (envCodec.ser (.map m)) = .ok (.map m) := by
+  have hcanon : envCodec.canon (.map m) := by
+    simp only [envCodec] at h
+    cases hd : envDe (Text.lines t) [] with
+    | error e => rw [hd] at h; simp at h
+    | ok m' =>
+      rw [hd] at h
+      simp only [Except.ok.injEq, Val.map.injEq] at h
+      subst h
+      obtain ⟨hs, hm⟩ := envDe_image _ [] m' (by simp [MapSorted]) hd
+      refine ⟨m', rfl, hs, ?_⟩
+      intro p hp
+      rcases hm p hp with hp' | ⟨l, hl, hsp⟩
+      · simp at hp'
+      · obtain ⟨h1, h2⟩ := splitOnFirst_eq l p.1 p.2 hsp
+        have hch := lines_chars t l hl
+        have hin1 : ∀ c ∈ p.1, c ∈ l := fun c hc => by rw [h2]; simp [hc]
+        have hin2 : ∀ c ∈ p.2, c ∈ l := fun c hc => by rw [h2]; simp [hc]
+        refine ⟨h1, fun hm' => (hch _ (hin1 _ hm')).2 rfl, fun hm' => (hch _ (hin2 _ hm')).2 rfl, ?_⟩
+        intro hlast
+        have : '\r' ∈ envPiece p := List.mem_of_getLast? hlast
+        have hl' : '\r' ∈ l := by rw [h2]; simpa [envPiece] using this
+        exact hcr (hch _ hl').1
+  exact ⟨hcanon, C16.env_ok _ hcanon⟩
+
+/-- the printed environment is a canonical value when every `K=V` piece could stand on a
+    continuation line (no line-break characters, not starting with space, tab or `#`) -/
+theorem C20_env_canonical (m : List (Str × Str)) (hne : m ≠ [])
+    (h : ∀ p ∈ m, ValidCont (envPiece p)) : CanonLines (Text.splitOn '\n' (envSer m)) := by
+  have hperm : List.Perm (sortStrings (m.map envPiece)) (m.map envPiece) := List.mergeSort_perm _ _
+  have hall : ∀ w ∈ sortStrings (m.map envPiece), ValidCont w := by
+    intro w hw
+    have := hperm.subset hw
+    simp only [List.mem_map] at this
+    obtain ⟨p, hp, rfl⟩ := this
+    exact h p hp
+  have hne' : sortStrings (m.map envPiece) ≠ [] := by
+    intro e
+    have := hperm.length_eq
+    rw [e] at this
+    cases m with
+    | nil => exact hne rfl
+    | cons a r => simp at this
+  have hnl : ∀ w ∈ sortStrings (m.map envPiece), '\n' ∉ w := by
+    intro w hw hm
+    have := (hall w hw).1 _ hm
+    simp [isNewline] at this
+  simp only [envSer, joinWith]
+  rw [C06.splitOn_join _ hne' hnl]
+  refine ⟨hne', fun l hl => (hall l hl).1, ?_, fun l hl => hall l (List.mem_of_mem_tail hl)⟩
+  intro c hc
+  cases hs : sortStrings (m.map envPiece) with
+  | nil => exact absurd hs hne'
+  | cons w ws =>
+    rw [hs] at hc
+    simp only [List.head?_cons, Option.bind_some] at hc
+    obtain ⟨_, c', cs, hw, hi, _⟩ := hall w (by rw [hs]; simp)
+    rw [hw] at hc
+    simp at hc
+    rw [← hc]; exact hi
+
+/-- **not canonical**: a `Files` list is read by white-space splitting and printed one pattern
     per line; a later pattern that starts with `#` becomes a comment line (finding F-C20-5) -/
 theorem C20_filelist_not_canonical :
     fileListCodec.de "x #y".toList = .ok (.list ["x".toList, "#y".toList])
     ∧ ¬ CanonLines (Text.splitOn '\n' (fileListCodec.ser (.list ["x".toList, "#y".toList]))) := by
   constructor <;> decide +kernel
 
-/-- over the generated table: the fields that use one of these two codec pairs -/
+/-- over the generated table: the fields that use this codec pair -/
 theorem C20_noncanonical_fields :
     (Gen.Structs.all.flatMap fun s => (s.fields.filter fun f =>
-        f.de = c!"buildinfo.deserialize_env" || f.de = c!"debiancopyright.deserialize_file_list").map
+        f.de = c!"debiancopyright.deserialize_file_list").map
       fun f => (s.name, f.key))
-    = [(c!"buildinfo.Buildinfo", c!"Environment"), (c!"debiancopyright.Header", c!"Files-Excluded"),
+    = [(c!"debiancopyright.Header", c!"Files-Excluded"),
        (c!"debiancopyright.FilesParagraph", c!"Files")] := by decide +kernel
 
 /-! ## Part F — the shipped structs meet the structural hypotheses of Part B -/
